@@ -388,7 +388,7 @@ write_step_one!(c06_write_b1_h00_u32, B1, 0, 32, [refuse, too_long]);
 write_step_one!(c06_write_b1_h08_u00, B1, 8, 0, [plain, too_long]);
 // @verif tier=thorough fs=801 unwind=2
 write_step_one!(c06_write_b1_h08_u08, B1, 8, 8, [plain, too_long]);
-// @verif tier=thorough fs=801 unwind=2
+// @verif tier=quick fs=801 unwind=2
 write_step_one!(c06_write_b1_h08_u16, B1, 8, 16, [plain, refuse, too_long]);
 // @verif tier=thorough fs=801 unwind=2
 write_step_one!(c06_write_b1_h08_u24, B1, 8, 24, [plain, refuse, too_long]);
